@@ -78,7 +78,16 @@ def run(v, tier, st, pr):
     docs += [(t, 'propert' in nm) for nm, t in prop_parse.repo_documents()]
     # grammar fingerprint before anything else in this process
     import translate_grammar
-    fp0 = translate_grammar.generate()
+    import translate
+
+    def fingerprint():
+        # the reflection can refuse a grammar it does not understand (the translator is fail-closed; the verdict then
+        # already names it as the broken tie): the other clauses are still examined on the implementation
+        try:
+            return translate_grammar.generate()
+        except translate.Abort as e:
+            return 'ABORT: %s' % e
+    fp0 = fingerprint()
     jobs = [([], history_script(r, docs)) for _ in range(250 * n)]
     res = stream_script.compare(jobs, 'history')
     fails = []
@@ -99,9 +108,9 @@ def run(v, tier, st, pr):
             fails.append({'cause': 'oracle', 'clause': 'first parse in a fresh interpreter differs from a later parse',
                           'input': {'kind': 'document', 'text_hex': hexs(docs[i][0]), 'text': docs[i][0]}})
     # (ii) shared grammar state: the reflected grammar after the history is the one the theorems were checked against
-    fp1 = translate_grammar.generate()
+    fp1 = fingerprint()
     gen = open(os.path.join(COQ, 'gen', 'GenGrammar.v')).read()
-    if fp1 != fp0 or fp1 != gen:
+    if not fp0.startswith('ABORT') and (fp1 != fp0 or fp1 != gen):
         fails.append({'cause': 'oracle', 'clause': 'the module-level grammar changed during parsing (reflected grammar differs before/after the history)',
                       'input': {'kind': 'history', 'text': 'see stream history'}})
     # (iii) concurrency: 16 threads, every document several times, compared with the sequential result
